@@ -35,6 +35,11 @@ Theorem C10_path_meaning : forall pre h e post h', run h (pre ++ e :: post) = So
       end.
 Proof. exact run_guarded. Qed.
 
+(* items are immutable once published (they are read without the lock) *)
+Theorem C10_items_immutable :
+  flat_map (fun m => ops_of (snd m) "field-write") gen_cache_methods = ["it.key"; "it.value"]%string.
+Proof. exact cache_item_fields_immutable. Qed.
+
 Theorem C10_chk_sound : forall p,
   well_locked p = true -> forall t o, exec p t o -> run false t = Some false.
 Proof. exact well_locked_sound. Qed.
@@ -63,5 +68,6 @@ Print Assumptions C10_skeleton_regenerated.
 Print Assumptions C10_lock_discipline.
 Print Assumptions C10_path_meaning.
 Print Assumptions C10_chk_sound.
+Print Assumptions C10_items_immutable.
 Print Assumptions C10_all_schedules.
 Print Assumptions C10_register.
